@@ -10,11 +10,11 @@ func init() {
 }
 
 func checkC14(r *Run) {
-	r.Rule("R1", "the shared parsed tree is read-only after construction (C13.R1) and Template.program is only written under the nil test (C13.R6)", 2)
-	r.Rule("R2", "every access to the template cache lies between moot.Lock() and its deferred Unlock; no other function touches the cache", 3)
-	r.Rule("R3", "every read or write of Context.data in Set/Value/Has/New and what they call is under that context's mutex; the lock is released before the outer context is consulted (no nested acquisition)", 3)
-	r.Rule("R4", "no unlocked package-level writes from the render path (C13.R5) and a fresh evaluator per Exec", 2)
-	r.Rule("R5", "no goroutines, selects or other ambient scheduling on the render path (C13.R3)", 2)
+	r.Rule("R1", "the shared parsed tree is read-only after construction (C13.R1) and Template.program is only written under the nil test (C13.R6)", 1)
+	r.Rule("R2", "every access to the template cache lies between moot.Lock() and its deferred Unlock; no other function touches the cache", 1)
+	r.Rule("R3", "every read or write of Context.data in Set/Value/Has/New and what they call is under that context's mutex; the lock is released before the outer context is consulted (no nested acquisition)", 1)
+	r.Rule("R4", "no unlocked package-level writes from the render path (C13.R5) and a fresh evaluator per Exec", 1)
+	r.Rule("R5", "no goroutines, selects or other ambient scheduling on the render path (C13.R3)", 1)
 	effectRuleAST(r, "R1")
 	programFieldRule(r, "R1")
 	cacheLockRule(r, "R2")
